@@ -1258,6 +1258,10 @@ class ScheduleMon(Monitor):
 
     def expect(self, w, name, tl, now, changed):
         r = self.ref[name]
+        lag = [t for t in tl if t[0] == 'sched_state_lag' and t[1] == name]
+        if lag:
+            raise Violation('state', f'{name}: while its actions were being invoked at t={now} current_state was '
+                                     f'{lag[0][2]!r}, the state the timetable prescribes (and the actions were told) is {lag[0][3]!r}')
         acts = [t for t in tl if t[0] == 'sched_action' and t[1] == name]
         want = [('sched_action', name, o, now, r['state'], mode) for o, mode in r['reg']] if changed else []
         if acts != want:
@@ -1550,7 +1554,7 @@ class LifecycleMon(Monitor):
         assets = list(w.system._assets)
         some = assets[len(assets) // 2]
         names = (None, some.name, 'no such asset')
-        ids = (None, some.id, 987654)
+        ids = (None, int(str(some.id)), 987654)       # equal to the id, not the same int object
         types = (None, type(some), _S, _P)
         subs = (None, _H, _M, _P)
         for nm in names:
@@ -1661,30 +1665,56 @@ class SplitInv(Monitor):
     the state reached from "just before the split" equals the state reached from "after split and resume"; by state
     matching the equality extends to whole evolutions.'''
     prop = 'C14'
-    _canon_skip = ('snap',)
+    _canon_skip = ('snap', 'pos')
 
     def __init__(self):
         self.snap = None
-        self.dirty = False
+        self.xops = []
+        self.pos = None
 
     def presplit(self, w):
         self.snap = None
-        self.dirty = False
+        self.xops = []
+        self.pos = None
         if w.mode != 'e1':
             return       # the comparison forks E1 worlds; E2 replays only re-derive final states (see linejobs.replay_line)
         self.snap = w.fork()
 
+    def before(self, w, label, ev):
+        if label[0] == 'split':
+            self.pos = label[1]
+
     def after(self, w, label, ev):
         if label[0] == 'xop':
-            self.dirty = True        # something was done between the runs: the two evolutions may differ legitimately
+            # an operation issued between the two runs: the unsplit twin performs the same operation from an event at
+            # the time of the split
+            self.xops.append(label[1])
 
     def resumed(self, w):
         snap, self.snap = self.snap, None
-        if snap is None or self.dirty or w.mode != 'e1':
+        xops, self.xops = self.xops, []
+        if snap is None or w.mode != 'e1':
             return
         from . import canon
         cur = w.fork()
         a0 = restore(snap)
+        if xops:
+            if a0._head_for_ops() is None:
+                return            # nothing but TERMINATE pending: no position to inject the twin's operations at
+            for n_, i in enumerate(xops):
+                # the first operation moves the twin's clock to the split time; the following ones happen at that
+                # instant, before anything the earlier ones scheduled there (as between the runs)
+                if n_ == 0:
+                    pos = self.pos
+                else:
+                    h = a0._head_for_ops()
+                    if h is None:
+                        return
+                    pos = 'pre' if h.time == a0.env.now else 'end'
+                a0.apply(('op', i, pos))
+            snap = a0.fork()
+            a0 = restore(snap)
+            w.facts.append('split_with_operations_compared')
         b0 = restore(cur)
         la = [l for l in a0.menu() if l[0] == 'ev']
         lb = [l for l in b0.menu() if l[0] == 'ev']
@@ -1707,10 +1737,10 @@ class SplitInv(Monitor):
                 raise Violation('split_invariance', f'dispatching {lab}: violation {ra} without the split, {rb} with it')
             if ra is not None:
                 continue
-            a.splits_left, a.steps = b.splits_left, b.steps
+            a.splits_left, a.steps, a.instant_steps = b.splits_left, b.steps, b.instant_steps
             for m in a.monitors + b.monitors:
                 if isinstance(m, SplitInv):
-                    m.snap, m.dirty = None, False
+                    m.snap, m.xops, m.pos = None, [], None
             if a.digest() != b.digest():
                 da, db = canon.dump(a), canon.dump(b)
                 i = next((k for k, (x, y) in enumerate(zip(da, db)) if x != y), min(len(da), len(db)))
